@@ -1,25 +1,444 @@
 import Mltwist.Model.Expreval
+import Mltwist.Lemmas.Bytes
 /-
-Helper lemmas for C10.  (Proofs to be supplied.)
+Helper lemmas for C10: the byte-level algorithms of `expreval` compute the reference
+semantics `evalBin` / unsigned `<` on truncated operands.
 -/
 namespace Mltwist.Lemmas.Expreval
 open Mltwist
+open Mltwist.Lemmas.Bytes
+
+/-! ### `add` -/
+
+theorem addLoop_length (l1 l2 : List UInt8) (c : Bool) (h : l1.length = l2.length) :
+    (Expreval.addLoop l1 l2 c).length = l1.length := by
+  induction l1 generalizing l2 c with
+  | nil => cases l2 <;> simp [Expreval.addLoop]
+  | cons b1 r1 ih =>
+    cases l2 with
+    | nil => simp at h
+    | cons b2 r2 =>
+      simp only [List.length_cons, Nat.add_right_cancel_iff] at h
+      simp [Expreval.addLoop, ih r2 _ h]
+
+/-- one step of the carry loop: result byte and carry out -/
+theorem add_byte (b1 b2 : UInt8) (c : Bool) :
+    (if c then b1 + b2 + 1 else b1 + b2).toNat = (b1.toNat + b2.toNat + c.toNat) % 256 ∧
+    ((b1 + b2 < b1 || (c && b1 + b2 == 255)).toNat = (b1.toNat + b2.toNat + c.toNat) / 256) := by
+  have h1 := toNat_lt_256 b1
+  have h2 := toNat_lt_256 b2
+  have hs : (b1 + b2).toNat = (b1.toNat + b2.toNat) % 256 := UInt8.toNat_add b1 b2
+  have hlt : (b1 + b2 < b1) = ((b1.toNat + b2.toNat) % 256 < b1.toNat) := by
+    rw [UInt8.lt_iff_toNat_lt, hs]
+  have heq : (b1 + b2 == 255) = decide ((b1.toNat + b2.toNat) % 256 = 255) := by
+    rw [← hs]
+    rw [Bool.beq_eq_decide_eq]
+    congr 1
+    rw [← UInt8.toNat_inj]; rfl
+  cases c with
+  | false =>
+    simp only [Bool.false_eq_true, if_false, Bool.false_and, Bool.or_false, Bool.toNat_false,
+      Nat.add_zero]
+    refine ⟨hs, ?_⟩
+    by_cases hc : (b1.toNat + b2.toNat) % 256 < b1.toNat
+    · have : (b1 + b2 < b1) := by rw [hlt]; exact hc
+      simp only [this, decide_true, Bool.toNat_true]; omega
+    · have : ¬ (b1 + b2 < b1) := by rw [hlt]; exact hc
+      simp only [this, decide_false, Bool.toNat_false]; omega
+  | true =>
+    simp only [if_true, Bool.true_and, Bool.toNat_true]
+    constructor
+    · rw [UInt8.toNat_add, hs]; show (_ + 1) % 2 ^ 8 = _; omega
+    · rw [heq]
+      by_cases hc : (b1.toNat + b2.toNat) % 256 < b1.toNat
+      · have : (b1 + b2 < b1) := by rw [hlt]; exact hc
+        simp only [this, decide_true, Bool.true_or, Bool.toNat_true]; omega
+      · have : ¬ (b1 + b2 < b1) := by rw [hlt]; exact hc
+        simp only [this, decide_false, Bool.false_or]
+        by_cases he : (b1.toNat + b2.toNat) % 256 = 255
+        · simp only [he, decide_true, Bool.toNat_true]; omega
+        · simp only [he, decide_false, Bool.toNat_false]; omega
+
+theorem leToNat_addLoop (l1 l2 : List UInt8) (c : Bool) (h : l1.length = l2.length) :
+    leToNat (Expreval.addLoop l1 l2 c) =
+      (leToNat l1 + leToNat l2 + c.toNat) % 256 ^ l1.length := by
+  induction l1 generalizing l2 c with
+  | nil => cases l2 <;> simp [Expreval.addLoop, Nat.mod_one]
+  | cons b1 r1 ih =>
+    cases l2 with
+    | nil => simp at h
+    | cons b2 r2 =>
+      simp only [List.length_cons, Nat.add_right_cancel_iff] at h
+      obtain ⟨hb, hc⟩ := add_byte b1 b2 c
+      simp only [Expreval.addLoop, leToNat_cons, List.length_cons]
+      rw [ih r2 _ h, hb, hc, pow256_succ, Nat.mod_mul]
+      have e1 : (b1.toNat + 256 * leToNat r1 + (b2.toNat + 256 * leToNat r2) + c.toNat) % 256
+          = (b1.toNat + b2.toNat + c.toNat) % 256 := by omega
+      have e2 : (b1.toNat + 256 * leToNat r1 + (b2.toNat + 256 * leToNat r2) + c.toNat) / 256
+          = leToNat r1 + leToNat r2 + (b1.toNat + b2.toNat + c.toNat) / 256 := by omega
+      rw [e1, e2]
+
+/-! ### `nand` -/
+
+theorem nandLoop_length (l1 l2 : List UInt8) (h : l1.length = l2.length) :
+    (Expreval.nandLoop l1 l2).length = l1.length := by
+  induction l1 generalizing l2 with
+  | nil => cases l2 <;> simp [Expreval.nandLoop]
+  | cons b1 r1 ih =>
+    cases l2 with
+    | nil => simp at h
+    | cons b2 r2 =>
+      simp only [List.length_cons, Nat.add_right_cancel_iff] at h
+      simp [Expreval.nandLoop, ih r2 h]
+
+/-- bitwise and splits at a byte boundary -/
+theorem and_byte_split (a b A B : Nat) (ha : a < 256) (hb : b < 256) :
+    (a + 256 * A) &&& (b + 256 * B) = (a &&& b) + 256 * (A &&& B) := by
+  have ha' : a < 2 ^ 8 := ha
+  have hb' : b < 2 ^ 8 := hb
+  have hab : a &&& b < 2 ^ 8 := Nat.and_lt_two_pow a hb'
+  apply Nat.eq_of_testBit_eq
+  intro i
+  have e1 : a + 256 * A = 2 ^ 8 * A + a := by omega
+  have e2 : b + 256 * B = 2 ^ 8 * B + b := by omega
+  have e3 : (a &&& b) + 256 * (A &&& B) = 2 ^ 8 * (A &&& B) + (a &&& b) := by omega
+  rw [e3, Nat.testBit_and, e1, e2, Nat.testBit_two_pow_mul_add _ ha',
+    Nat.testBit_two_pow_mul_add _ hb', Nat.testBit_two_pow_mul_add _ hab]
+  split <;> simp [Nat.testBit_and]
+
+theorem leToNat_nandLoop (l1 l2 : List UInt8) (h : l1.length = l2.length) :
+    leToNat (Expreval.nandLoop l1 l2) =
+      256 ^ l1.length - 1 - (leToNat l1 &&& leToNat l2) := by
+  induction l1 generalizing l2 with
+  | nil => cases l2 <;> simp [Expreval.nandLoop]
+  | cons b1 r1 ih =>
+    cases l2 with
+    | nil => simp at h
+    | cons b2 r2 =>
+      simp only [List.length_cons, Nat.add_right_cancel_iff] at h
+      have h1 := toNat_lt_256 b1
+      have h2 := toNat_lt_256 b2
+      have hm : b1.toNat &&& b2.toNat < 2 ^ 8 := Nat.and_lt_two_pow _ h2
+      have hM : leToNat r1 &&& leToNat r2 < 256 ^ r1.length := by
+        have := leToNat_lt r2
+        rw [← h] at this
+        have := Nat.and_lt_two_pow (leToNat r1) this
+        rwa [two_pow_eight_mul] at this
+      have hP := pow256_pos r1.length
+      simp only [Expreval.nandLoop, leToNat_cons, List.length_cons]
+      rw [ih r2 h, and_byte_split _ _ _ _ h1 h2, UInt8.toNat_not, UInt8.toNat_and, pow256_succ]
+      show 256 - 1 - _ + _ = _
+      omega
+
+/-! ### bit shifts -/
+
+theorem bitLshAux_length (s : Nat) (prev : UInt8) (l : List UInt8) :
+    (Expreval.bitLshAux s prev l).length = l.length := by
+  induction l generalizing prev with
+  | nil => rfl
+  | cons b bs ih => simp [Expreval.bitLshAux, ih]
+
+theorem bitRsh_length (s : Nat) (l : List UInt8) :
+    (Expreval.bitRsh s l).length = l.length := by
+  induction l with
+  | nil => rfl
+  | cons b bs ih =>
+    cases bs with
+    | nil => rfl
+    | cons c bs => simp only [Expreval.bitRsh, List.length_cons] at ih ⊢; rw [ih]
+
+/-- or of a multiple of `2^s` and a value below `2^s` is their sum -/
+theorem or_eq_add_of_dvd (s x y : Nat) (hx : x % 2 ^ s = 0) (hy : y < 2 ^ s) :
+    x ||| y = x + y := by
+  have : x = 2 ^ s * (x / 2 ^ s) := by
+    have := Nat.div_add_mod x (2 ^ s)
+    omega
+  rw [this, ← Nat.two_pow_add_eq_or_of_lt hy]
+
+theorem ofNat_toNat_mod8 (s : Nat) (hs : s < 8) : (UInt8.ofNat s).toNat % 8 = s := by
+  rw [UInt8.toNat_ofNat']; omega
+
+/-- the byte produced by `bitLsh`/`bitRsh` out of the shifted byte and its neighbour's spill -/
+theorem shl_or_shr_byte (s : Nat) (h0 : 0 < s) (h8 : s < 8) (b p : UInt8) :
+    ((b <<< UInt8.ofNat s) ||| (p >>> UInt8.ofNat (8 - s))).toNat =
+      (b.toNat * 2 ^ s) % 256 + p.toNat / 2 ^ (8 - s) := by
+  have hb := toNat_lt_256 b
+  have hp := toNat_lt_256 p
+  rw [UInt8.toNat_or, UInt8.toNat_shiftLeft, UInt8.toNat_shiftRight,
+    ofNat_toNat_mod8 s h8, ofNat_toNat_mod8 (8 - s) (by omega), Nat.shiftLeft_eq,
+    Nat.shiftRight_eq_div_pow]
+  apply or_eq_add_of_dvd s
+  · have hs : s = 1 ∨ s = 2 ∨ s = 3 ∨ s = 4 ∨ s = 5 ∨ s = 6 ∨ s = 7 := by omega
+    rcases hs with rfl | rfl | rfl | rfl | rfl | rfl | rfl <;> omega
+  · have hs : s = 1 ∨ s = 2 ∨ s = 3 ∨ s = 4 ∨ s = 5 ∨ s = 6 ∨ s = 7 := by omega
+    rcases hs with rfl | rfl | rfl | rfl | rfl | rfl | rfl <;> omega
+
+theorem shr_or_shl_byte (s : Nat) (h0 : 0 < s) (h8 : s < 8) (b c : UInt8) :
+    ((b >>> UInt8.ofNat s) ||| (c <<< UInt8.ofNat (8 - s))).toNat =
+      b.toNat / 2 ^ s + (c.toNat * 2 ^ (8 - s)) % 256 := by
+  have := shl_or_shr_byte (8 - s) (by omega) (by omega) c b
+  have e : 8 - (8 - s) = s := by omega
+  rw [e] at this
+  rw [UInt8.toNat_or, Nat.or_comm, ← UInt8.toNat_or, this, Nat.add_comm]
+
+theorem leToNat_bitLshAux (s : Nat) (h0 : 0 < s) (h8 : s < 8) (prev : UInt8) (l : List UInt8) :
+    leToNat (Expreval.bitLshAux s prev l) =
+      (leToNat l * 2 ^ s + prev.toNat / 2 ^ (8 - s)) % 256 ^ l.length := by
+  induction l generalizing prev with
+  | nil => simp [Expreval.bitLshAux, Nat.mod_one]
+  | cons b bs ih =>
+    have hb := toNat_lt_256 b
+    have hp := toNat_lt_256 prev
+    simp only [Expreval.bitLshAux, leToNat_cons, List.length_cons]
+    rw [ih b, shl_or_shr_byte s h0 h8, pow256_succ, Nat.mod_mul]
+    have hs : s = 1 ∨ s = 2 ∨ s = 3 ∨ s = 4 ∨ s = 5 ∨ s = 6 ∨ s = 7 := by omega
+    have e1 : ((b.toNat + 256 * leToNat bs) * 2 ^ s + prev.toNat / 2 ^ (8 - s)) % 256
+        = b.toNat * 2 ^ s % 256 + prev.toNat / 2 ^ (8 - s) := by
+      rcases hs with rfl | rfl | rfl | rfl | rfl | rfl | rfl <;> omega
+    have e2 : ((b.toNat + 256 * leToNat bs) * 2 ^ s + prev.toNat / 2 ^ (8 - s)) / 256
+        = leToNat bs * 2 ^ s + b.toNat / 2 ^ (8 - s) := by
+      rcases hs with rfl | rfl | rfl | rfl | rfl | rfl | rfl <;> omega
+    rw [e1, e2]
+
+theorem leToNat_bitLsh (s : Nat) (h0 : 0 < s) (h8 : s < 8) (l : List UInt8) :
+    leToNat (Expreval.bitLsh l s) = (leToNat l * 2 ^ s) % 256 ^ l.length := by
+  rw [Expreval.bitLsh, leToNat_bitLshAux s h0 h8]
+  simp
+
+theorem leToNat_bitRsh (s : Nat) (h0 : 0 < s) (h8 : s < 8) (l : List UInt8) :
+    leToNat (Expreval.bitRsh s l) = leToNat l / 2 ^ s := by
+  induction l with
+  | nil => simp [Expreval.bitRsh]
+  | cons b bs ih =>
+    cases bs with
+    | nil =>
+      simp only [Expreval.bitRsh, leToNat_cons, leToNat_nil, Nat.mul_zero, Nat.add_zero]
+      rw [UInt8.toNat_shiftRight, ofNat_toNat_mod8 s h8, Nat.shiftRight_eq_div_pow]
+    | cons c bs =>
+      have hb := toNat_lt_256 b
+      have hc := toNat_lt_256 c
+      simp only [Expreval.bitRsh, leToNat_cons] at ih ⊢
+      rw [ih, shr_or_shl_byte s h0 h8]
+      have hs : s = 1 ∨ s = 2 ∨ s = 3 ∨ s = 4 ∨ s = 5 ∨ s = 6 ∨ s = 7 := by omega
+      rcases hs with rfl | rfl | rfl | rfl | rfl | rfl | rfl <;> omega
+
+/-! ### `shiftUint64` -/
+
+theorem shiftUint64_eq (v : List UInt8) (w : Nat) :
+    Expreval.shiftUint64 v w =
+      if trunc w (leToNat v) ≥ 2 ^ 64 then none
+      else if trunc w (leToNat v) / 8 ≥ w then none
+      else some (trunc w (leToNat v) / 8, trunc w (leToNat v) % 8) := by
+  simp only [Expreval.shiftUint64, bigInt_eq]
+
+theorem shift_in_range (v : List UInt8) (w a b : Nat) (h : Expreval.shiftUint64 v w = some (a, b)) :
+    a < w ∧ b < 8 := by
+  rw [shiftUint64_eq] at h
+  split at h
+  · cases h
+  · split at h
+    · cases h
+    · simp only [Option.some.injEq, Prod.mk.injEq] at h
+      omega
+
+/-- the two failure cases of `shiftUint64` are exactly "shift by at least `8w` bits" -/
+theorem shiftUint64_none (v : List UInt8) (w : Nat) (hw : w ≤ 255)
+    (h : Expreval.shiftUint64 v w = none) : trunc w (leToNat v) ≥ 8 * w := by
+  rw [shiftUint64_eq] at h
+  split at h
+  · rename_i h64
+    have : (2 : Nat) ^ 64 = 18446744073709551616 := by decide
+    omega
+  · split at h
+    · omega
+    · cases h
+
+theorem shiftUint64_some (v : List UInt8) (w k s : Nat)
+    (h : Expreval.shiftUint64 v w = some (k, s)) :
+    trunc w (leToNat v) = 8 * k + s ∧ k < w ∧ s < 8 := by
+  rw [shiftUint64_eq] at h
+  split at h
+  · cases h
+  · split at h
+    · cases h
+    · simp only [Option.some.injEq, Prod.mk.injEq] at h
+      omega
+
+/-! ### `lsh` and `rsh` -/
+
+theorem lsh_length (v1 v2 : List UInt8) (w : Nat) : (Expreval.lsh v1 v2 w).length = w := by
+  unfold Expreval.lsh
+  split
+  · simp
+  · rename_i k s h
+    obtain ⟨_, hk, _⟩ := shiftUint64_some _ _ _ _ h
+    have hl : (List.replicate k (0 : UInt8) ++ (Expreval.setWidth v1 w).take (w - k)).length = w := by
+      rw [List.length_append, List.length_replicate, List.length_take, setWidth_length]; omega
+    simp only []
+    split
+    · rw [Expreval.bitLsh, bitLshAux_length, hl]
+    · exact hl
+
+theorem rsh_length (v1 v2 : List UInt8) (w : Nat) : (Expreval.rsh v1 v2 w).length = w := by
+  unfold Expreval.rsh
+  split
+  · simp
+  · rename_i k s h
+    obtain ⟨_, hk, _⟩ := shiftUint64_some _ _ _ _ h
+    simp only []
+    rw [List.length_append, List.length_replicate]
+    split
+    · rw [bitRsh_length, List.length_drop, setWidth_length]; omega
+    · rw [List.length_drop, setWidth_length]; omega
+
+theorem two_pow_split (k s : Nat) : 2 ^ (8 * k + s) = 256 ^ k * 2 ^ s := by
+  rw [Nat.pow_add, two_pow_eight_mul]
+
+theorem leToNat_lsh (v1 v2 : List UInt8) (w : Nat) (hw : w ≤ 255) :
+    leToNat (Expreval.lsh v1 v2 w) =
+      evalBin .lsh w (trunc w (leToNat v1)) (trunc w (leToNat v2)) := by
+  unfold Expreval.lsh evalBin
+  split
+  · rename_i h
+    have := shiftUint64_none _ _ hw h
+    simp only [leToNat_replicate_zero]
+    rw [if_pos this]
+  · rename_i k s h
+    obtain ⟨hy, hk, hs⟩ := shiftUint64_some _ _ _ _ h
+    have hlt : ¬ (trunc w (leToNat v2) ≥ 8 * w) := by omega
+    simp only []
+    rw [if_neg hlt, hy, two_pow_split, two_pow_eight_mul]
+    have hl : (List.replicate k (0 : UInt8) ++ (Expreval.setWidth v1 w).take (w - k)).length = w := by
+      rw [List.length_append, List.length_replicate, List.length_take, setWidth_length]; omega
+    have hv : leToNat (List.replicate k (0 : UInt8) ++ (Expreval.setWidth v1 w).take (w - k)) =
+        (256 ^ k * trunc w (leToNat v1)) % 256 ^ w := by
+      rw [leToNat_append, leToNat_replicate_zero, List.length_replicate, leToNat_take,
+        leToNat_setWidth, Nat.zero_add, ← Nat.mul_mod_mul_left, ← pow256_add]
+      congr 2; omega
+    split
+    · rename_i hs0
+      rw [leToNat_bitLsh s (by omega) hs, hl, hv, Nat.mod_mul_mod]
+      congr 1
+      rw [Nat.mul_comm (256 ^ k), Nat.mul_assoc]
+    · rename_i hs0
+      have : s = 0 := by omega
+      subst this
+      rw [hv, Nat.pow_zero, Nat.mul_one, Nat.mul_comm]
+
+theorem leToNat_rsh (v1 v2 : List UInt8) (w : Nat) (hw : w ≤ 255) :
+    leToNat (Expreval.rsh v1 v2 w) =
+      evalBin .rsh w (trunc w (leToNat v1)) (trunc w (leToNat v2)) := by
+  unfold Expreval.rsh evalBin
+  split
+  · rename_i h
+    have := shiftUint64_none _ _ hw h
+    simp only [leToNat_replicate_zero]
+    rw [if_pos this]
+  · rename_i k s h
+    obtain ⟨hy, hk, hs⟩ := shiftUint64_some _ _ _ _ h
+    have hlt : ¬ (trunc w (leToNat v2) ≥ 8 * w) := by omega
+    simp only []
+    rw [if_neg hlt, hy, two_pow_split, leToNat_append, leToNat_replicate_zero, Nat.mul_zero,
+      Nat.add_zero, ← Nat.div_div_eq_div_mul]
+    split
+    · rename_i hs0
+      rw [leToNat_bitRsh s (by omega) hs, leToNat_drop, leToNat_setWidth]
+    · rename_i hs0
+      have : s = 0 := by omega
+      subst this
+      rw [leToNat_drop, leToNat_setWidth, Nat.pow_zero, Nat.div_one]
+
+/-! ### the main statements -/
 
 theorem binary_length (op : BinOp) (c1 c2 : List UInt8) (w : Nat) :
     (Expreval.binary op c1 c2 w).length = w := by
-  sorry
+  cases op
+  · show (Expreval.addLoop _ _ _).length = w
+    rw [addLoop_length _ _ _ (by simp), setWidth_length]
+  · exact lsh_length c1 c2 w
+  · exact rsh_length c1 c2 w
+  · show (natToLE _ _).length = w
+    exact natToLE_length _ _
+  · show (Expreval.div c1 c2 w).length = w
+    unfold Expreval.div
+    split
+    · exact List.length_replicate
+    · exact natToLE_length _ _
+  · show (Expreval.nandLoop _ _).length = w
+    rw [nandLoop_length _ _ (by simp), setWidth_length]
 
 theorem binary_value (op : BinOp) (c1 c2 : List UInt8) (w : Nat) (hw : w ≤ 255) :
     leToNat (Expreval.binary op c1 c2 w) =
       evalBin op w (trunc w (leToNat c1)) (trunc w (leToNat c2)) := by
-  sorry
+  cases op
+  · show leToNat (Expreval.addLoop _ _ _) = _ % _
+    rw [leToNat_addLoop _ _ _ (by simp), setWidth_length, leToNat_setWidth, leToNat_setWidth,
+      two_pow_eight_mul]
+    rfl
+  · exact leToNat_lsh c1 c2 w hw
+  · exact leToNat_rsh c1 c2 w hw
+  · show leToNat (natToLE _ _) = _ % _
+    rw [leToNat_natToLE, bigInt_eq, bigInt_eq]
+  · show leToNat (Expreval.div c1 c2 w) = if _ then _ else _
+    unfold Expreval.div
+    rw [bigInt_eq, bigInt_eq]
+    split
+    · rw [leToNat_replicate_255, two_pow_eight_mul]
+    · rw [leToNat_natToLE_trunc, trunc_of_lt]
+      exact Nat.lt_of_le_of_lt (Nat.div_le_self _ _) (trunc_lt w _)
+  · show leToNat (Expreval.nandLoop _ _) = nandW _ _ _
+    rw [leToNat_nandLoop _ _ (by simp), setWidth_length, leToNat_setWidth, leToNat_setWidth,
+      nandW, two_pow_eight_mul]
+
+/-! ### `ltu` -/
+
+/-- scanning from the most significant byte decides numeric `<` -/
+theorem ltuLoop_iff (r1 r2 : List UInt8) (h : r1.length = r2.length) :
+    Expreval.ltuLoop r1 r2 = true ↔ leToNat r1.reverse < leToNat r2.reverse := by
+  induction r1 generalizing r2 with
+  | nil =>
+    cases r2 with
+    | nil => simp [Expreval.ltuLoop]
+    | cons _ _ => simp at h
+  | cons b1 t1 ih =>
+    cases r2 with
+    | nil => simp at h
+    | cons b2 t2 =>
+      simp only [List.length_cons, Nat.add_right_cancel_iff] at h
+      have hA := leToNat_lt_pow256 t1.reverse
+      have hB := leToNat_lt_pow256 t2.reverse
+      rw [List.length_reverse] at hA hB
+      rw [← h] at hB
+      simp only [Expreval.ltuLoop, List.reverse_cons, leToNat_append, List.length_reverse,
+        leToNat_cons, leToNat_nil, Nat.mul_zero, Nat.add_zero, ← h]
+      by_cases hlt' : b1 < b2
+      · rw [if_pos hlt']
+        have hlt : b1.toNat < b2.toNat := UInt8.lt_iff_toNat_lt.mp hlt'
+        have : 256 ^ t1.length * (b1.toNat + 1) ≤ 256 ^ t1.length * b2.toNat :=
+          Nat.mul_le_mul_left _ hlt
+        rw [Nat.mul_add, Nat.mul_one] at this
+        simp only [true_iff]
+        omega
+      · rw [if_neg hlt']
+        have hlt : ¬ b1.toNat < b2.toNat := fun h => hlt' (UInt8.lt_iff_toNat_lt.mpr h)
+        by_cases hgt' : b1 > b2
+        · rw [if_pos hgt']
+          have hgt : b2.toNat < b1.toNat := UInt8.lt_iff_toNat_lt.mp hgt'
+          have : 256 ^ t1.length * (b2.toNat + 1) ≤ 256 ^ t1.length * b1.toNat :=
+            Nat.mul_le_mul_left _ hgt
+          rw [Nat.mul_add, Nat.mul_one] at this
+          simp only [Bool.false_eq_true, false_iff]
+          omega
+        · rw [if_neg hgt', ih t2 h]
+          have hgt : ¬ b2.toNat < b1.toNat := fun h => hgt' (UInt8.lt_iff_toNat_lt.mpr h)
+          have : b1.toNat = b2.toNat := by omega
+          rw [this]
+          omega
 
 theorem ltu_iff (c1 c2 : List UInt8) (w : Nat) :
     Expreval.ltu c1 c2 w = true ↔ trunc w (leToNat c1) < trunc w (leToNat c2) := by
-  sorry
-
-theorem shift_in_range (v : List UInt8) (w a b : Nat) (h : Expreval.shiftUint64 v w = some (a, b)) :
-    a < w ∧ b < 8 := by
-  sorry
+  unfold Expreval.ltu
+  rw [ltuLoop_iff _ _ (by simp), List.reverse_reverse, List.reverse_reverse, leToNat_setWidth,
+    leToNat_setWidth]
 
 end Mltwist.Lemmas.Expreval
